@@ -507,7 +507,10 @@ func genC16(t *rapid.T) (*C16Case, []string) {
 			labels = append(labels, "nontrivial")
 		}
 	case "num":
-		switch rapid.IntRange(0, 3).Draw(t, "numstr") {
+		switch rapid.IntRange(0, 4).Draw(t, "numstr") {
+		case 4:
+			c.S = c05NumericString(t)
+			labels = append(labels, "nontrivial")
 		case 0:
 			c.S = gen.NumText(gen.Float64().Draw(t, "x"))
 			labels = append(labels, "nontrivial")
